@@ -324,6 +324,19 @@ def c12(run, args):
         if "err" in holder:
             raise holder["err"]
         replay_and_validate(run, vh, long_beh, "long", tf=holder["tf"])
+    # the implementation-shaped model of the scanner's control flow (RetentionImpl.tla): safety and liveness (JoinReturns under weak
+    # fairness, no state constraint) as the code is now; three named deviations must fail as predicted
+    ri_cfg = lambda dis, sl, df, fl: ("SPECIFICATION FairSpec\nCONSTANTS\n  NBoxes = 3\n  Disabled = %s\n  SleepNotSelect = %s\n  DeferAfterReturn = %s\n  PeriodFloor = %s\n"
+                                      "INVARIANTS TypeOK DisabledNeverScans LateBound PromptStop DoneOnlyOnReturn\nPROPERTIES JoinReturns\nCHECK_DEADLOCK FALSE\n" % (dis, sl, df, fl))
+    F, T = "FALSE", "TRUE"
+    run.model_check("RetentionImpl", ri_cfg(F, F, F, F), label="RetentionImpl (retention on)", workers=2)
+    run.model_check("RetentionImpl", ri_cfg(T, F, F, F), label="RetentionImpl (period 0)", workers=2)
+    for name, flags, expect in (("SleepNotSelect", (F, T, F, F), "PromptStop"), ("DeferAfterReturn", (T, F, T, F), "JoinReturns"), ("PeriodFloor", (T, F, F, T), "DisabledNeverScans")):
+        rc, out, dt = run.tlc("RetentionImpl", ri_cfg(*flags), workers=2, timeout=300, heap="2g")
+        hit = ("%s is violated" % expect) in out or ("%s was violated" % expect) in out
+        run.cov["stages"].append({"stage": "model-check", "module": "RetentionImpl(%s=TRUE)" % name, "mode": "prediction", "violated_as_predicted": [expect] if hit else [], "wall_s": round(dt, 1)})
+        if not hit:
+            raise Inconclusive("the deviation %s of RetentionImpl no longer produces its predicted failure: model and check have drifted apart" % name)
     run.cov["rule"] = ("TLC enumerates every distribution of message ages {older, younger than the period} over the stated mailboxes x messages; for each, the "
                        "undisturbed scan, one environment operation (delivery of an older/younger message, removal of the first/last message, purge; target: an "
                        "already visited / not yet visited / empty-at-start mailbox, or the mailbox the file-store walk is about to open) at every position of the scan "
